@@ -70,8 +70,19 @@ func vfC06EqualCross(c int) {
 	vfReach("equal-cross")
 	if vfSig(g) != vfSig(h) {
 		vfAssert("equal-different-structure-false", !Equal(g, h))
-	} else {
+		return
+	}
+	a, b := vfCoords(g), vfCoords(h)
+	same := len(a) == len(b)
+	for k := range a {
+		if k < len(b) && a[k] != b[k] {
+			same = false
+		}
+	}
+	if same {
 		vfAssert("equal-same-structure-same-coords", Equal(g, h))
+	} else {
+		vfAssert("equal-same-structure-different-coords-false", !Equal(g, h))
 	}
 }
 
